@@ -56,6 +56,33 @@ def coq_of(v):
     raise ValueError(v)
 
 
+DOC_INT = {"i8": (-128, 127), "i16": (-2**15, 2**15 - 1), "i32": (-2**31, 2**31 - 1), "i64": (-2**63, 2**63 - 1),
+           "u8": (0, 2**8 - 1), "u16": (0, 2**16 - 1), "u32": (0, 2**32 - 1), "u64": (0, 2**64 - 1),
+           "uvarint": (0, 2**35 - 1), "uvarlong": (0, 2**70 - 1), "svarint": (-2**34, 2**34 - 1), "svarlong": (-2**69, 2**69 - 1)}
+_TD_MIN = datetime.timedelta.min // US
+_TD_MAX = datetime.timedelta.max // US
+
+
+def doc_member(name, v):
+    """The documented domain of a primitive type, written down here independently of kio and of the Coq
+    model (from the class docstrings / Kafka's wire widths).  None where this table passes no judgement
+    (cross-kind values such as bool-for-int, whose treatment only the model fixes)."""
+    k = v[0]
+    if name in DOC_INT:
+        return (DOC_INT[name][0] <= v[1] <= DOC_INT[name][1]) if k == "int" else (None if k == "bool" else False)
+    if name == "f64":
+        return ((v[1] >> 52) & 0x7FF) != 0x7FF if k == "float" else False
+    if name == "i32Timedelta":
+        return -(2**31) * 1000 <= v[1] <= (2**31 - 1) * 1000 if k == "td" else False
+    if name == "i64Timedelta":
+        return _TD_MIN <= v[1] <= _TD_MAX - 86400 * 10**6 if k == "td" else False
+    if name == "TZAwareMicros":
+        return (v[1] and v[2] >= 0) if k == "dt" else False
+    if name == "TZAware":
+        return (v[1] and v[2] >= 0 and v[2] % 1000 == 0) if k == "dt" else False
+    return None
+
+
 def run(ctx):
     res = _data.instance_check(ctx, "C12")
     viol = res["violations"]
@@ -140,6 +167,10 @@ def run(ctx):
             if inst is not True and inst is not False:
                 prop_bad.append({"type": name, "value": repr(py)[:80], "what": f"isinstance {inst}"})
                 continue
+            doc = doc_member(name, v)
+            if doc is not None and doc != inst:
+                prop_bad.append({"type": name, "value": repr(py)[:80],
+                                 "what": f"isinstance is {inst} but the documented domain says {doc}"})
             if inst != call_ok:
                 prop_bad.append({"type": name, "value": repr(py)[:80], "what": f"isinstance={inst} but constructor accepted={call_ok}"})
             cases.append((coq_t, v, inst, call_ok, name))
